@@ -57,6 +57,7 @@ def _fr(x):
 
 
 ATOL = Fraction(1, 1000)
+_RATE_CACHE = {}
 
 
 def evse_accepts(e, pilot):
@@ -78,9 +79,19 @@ def evse_accepts(e, pilot):
         ok = abs(p) <= ATOL or (p >= lo and (hi is None or p <= hi))
         ds = [abs(abs(p) - ATOL), abs(p - lo)] + ([abs(p - hi)] if hi is not None else [])
         return ok, min(ds)
-    rates = sorted({_fr(r) for r in e["rates"]} | {Fraction(0)})
-    ok = any(abs(p - r) <= ATOL for r in rates)
-    dist = min(abs(abs(p - r) - ATOL) for r in rates)
+    key = id(e["rates"])
+    hit = _RATE_CACHE.get(key)
+    if hit is None or hit[0] is not e["rates"] or hit[1] != len(e["rates"]):
+        if len(_RATE_CACHE) > 64:
+            _RATE_CACHE.clear()
+        hit = _RATE_CACHE[key] = (e["rates"], len(e["rates"]), sorted({_fr(r) for r in e["rates"]} | {Fraction(0)}))
+    rates = hit[2]
+    # only the levels next to the pilot can decide (exact arithmetic on those)
+    import bisect
+    k = bisect.bisect_left(rates, p)
+    near = rates[max(0, k - 2):k + 2]
+    ok = any(abs(p - r) <= ATOL for r in near)
+    dist = min(abs(abs(p - r) - ATOL) for r in near)
     return ok, dist
 
 
